@@ -364,6 +364,38 @@ pub fn judge(w: &World, run: &Run, focus: Option<&str>) -> (Verdict, RunInfo) {
             }
             // step 3b: the reference run on the flattened text decides
             let r = run_reference(&m.flat);
+            if let RunResult::Panic(_) = r.result {
+                // Both panic. If the flattened text has `include` statements below global scope,
+                // decide whether they are what makes the analyser panic: replace each of them by
+                // the harmless statement `end;` and analyse again. "An include below global scope
+                // is reported, and none of these cases panics" is C18's own clause, so a panic
+                // that disappears with the nested includes is a violation, not a skip.
+                let flat = m.flat.clone();
+                if let Ok(ff) = m.facts_of(&flat) {
+                    if !ff.nested_includes.is_empty() {
+                        let mut t = flat.clone();
+                        let mut ranges = ff.nested_includes.clone();
+                        ranges.sort();
+                        for (s, e) in ranges.iter().rev() {
+                            t.replace_range(*s..*e, "end;");
+                        }
+                        if let RunResult::Returned(_) = run_reference(&t).result {
+                            return (
+                                viol(
+                                    "R1",
+                                    C18,
+                                    "panic/include-below-global-scope",
+                                    format!(
+                                        "the front end panics because of an include statement below global scope (the same text with those statements replaced by `end;` is analysed without panic): {}",
+                                        msg
+                                    ),
+                                ),
+                                info,
+                            );
+                        }
+                    }
+                }
+            }
             return match r.result {
                 RunResult::Panic(_) => (Verdict::Skip("reference_undefined"), info),
                 _ => (
